@@ -17,6 +17,7 @@ pub mod c15;
 pub mod c16;
 pub mod c18;
 pub mod c20;
+pub mod lax;
 pub mod c17;
 
 #[derive(Clone, Copy, PartialEq, Eq, Debug)]
@@ -36,7 +37,7 @@ pub struct CheckDef {
 }
 
 pub fn registry() -> Vec<CheckDef> {
-    vec![c01::def(), c02::def(), c03::def(), c04::def(), c05::def(), c06::def(), c08::def(), c09::def(), c12::def(), c14::def(), c15::def(), c16::def(), c18::def(), c20::def(), c17::def()]
+    vec![c01::def(), c02::def(), c03::def(), c04::def(), c05::def(), c06::def(), c08::def(), c09::def(), lax::def_c10(), c12::def(), c14::def(), c15::def(), c16::def(), c18::def(), c20::def(), c17::def()]
 }
 
 /// deterministic xorshift generator for seeded sampling
